@@ -73,8 +73,8 @@ def runOpAudio (α : Type) [LT α] [LE α] [DecidableLT α] [DecidableLE α] [BE
     let l ← bytes; let i ← P.int; let j ← P.int
     pure s!"ok {outBytes (slice l i j)} {outBytes (sliceTo l i)} {outBytes (sliceFrom l j)}"
   | "a_index" => some do
-    let w ← P.nat; let r ← P.nat; let t ← qtime
-    pure s!"ok {indexAtTime t r w}"
+    let wv ← wav; let t ← qtime
+    pure s!"ok {wv.index t}"
   | "a_pack" => some do
     let w ← P.nat; let xs ← samples
     pure (outExc outBytes (convertToBytes xs w))
@@ -83,7 +83,7 @@ def runOpAudio (α : Type) [LT α] [LE α] [DecidableLT α] [DecidableLE α] [BE
     pure (outExc outSamples (convertFromBytes bs w))
   | "a_getframes" => some do
     let wv ← wav; let s ← qtime; let e ← qtime
-    pure ("ok " ++ outBytes (wv.getFrames s e))
+    pure (outExc outBytes (wv.getFrames s e))
   | "a_getsamples" => some do
     let wv ← wav; let s ← qtime; let e ← qtime
     pure (outExc outSamples (wv.getSamples s e))
@@ -93,11 +93,15 @@ def runOpAudio (α : Type) [LT α] [LE α] [DecidableLT α] [DecidableLE α] [BE
     pure s!"ok {d.num} {d.den} {(floatDuration wv.frames.length wv.rate wv.width).toBits.toNat}"
   | "a_edits" => some do
     let wv ← wav; let n ← P.nat; let es ← P.many n edit
-    pure ("ok " ++ Out.join ((runEdits wv es).map fun x => outBytes x.frames))
+    let r := runEdits wv es
+    let errTok := match r.2 with
+      | none => []
+      | some err => ["err", err.name]
+    pure ("ok " ++ Out.join (r.1.map (fun x => outBytes x.frames) ++ errTok))
   | "a_invdel" => some do
     let wv ← wav; let t ← qtime; let g ← bytes; let e ← qtime
     let mid := wv.insert t g
-    pure s!"ok {outBytes mid.frames} {outBytes (mid.deleteSegment t e).frames}"
+    pure (outExc (fun (x : Wav) => s!"{outBytes mid.frames} {outBytes x.frames}") (mid.deleteSegment t e))
   | "a_saveopen" => some do
     let wv ← wav
     pure (outExc (fun (x : Wav) => s!"{x.width} {x.rate} {outBytes x.frames}") (wv.save >>= Wav.open))
